@@ -22,9 +22,9 @@ Run(S, steps, l) ==
           ELSE IF S2 = {} THEN [at |-> l, clause |-> "observation-not-allowed", allowed |-> outs]
           ELSE Run(S2, steps, l + 1)
 
-S0 == {[cm |-> "DISABLED", link |-> "down", en |-> FALSE]}
+S0(t) == {[cm |-> "DISABLED", link |-> "down", en |-> FALSE, deny |-> t.deny]}
 
 ASSUME \A n \in 1..Len(Traces) :
-         LET v == Run(S0, Traces[n].steps, 1)
+         LET v == Run(S0(Traces[n]), Traces[n].steps, 1)
          IN PrintT(<<"V", ToJson([id |-> Traces[n].id, at |-> v.at, clause |-> v.clause, allowed |-> v.allowed])>>)
 =============================================================================
